@@ -112,16 +112,22 @@ class Executor:
             return VF.NaN()
         if re.search(r"\bINFINITY$", t):
             return VF(R1, R1, FALSE, TRUE)
-        if t in self.consts:
-            return VF.const(self.consts[t])
-        short = t.split("::")[-1]
-        if short in self.consts:
-            return VF.const(self.consts[short])
+        for key in (t, t.split("::")[-1]):
+            if key in self.consts:
+                c = self.consts[key]
+                return VInt(c) if isinstance(c, int) else VF.const(c)
         if t.startswith("{closure@") or t.startswith("ZeroSized"):
             cm = re.search(r"\{closure@[^}]*\}", t)
             return VStruct(cm.group(0) if cm else t, [])
         if t.startswith('"'):
-            return VOpaque("str", t)
+            try:
+                import ast
+                lit = ast.literal_eval(t)
+                return VStr([smt.const(b) for b in lit.encode("utf-8")])
+            except Exception:
+                return VOpaque("str", t)
+        if t.startswith('b"'):
+            return VOpaque("bytes", t)
         m = re.fullmatch(r"(.*)::(None)", t)
         if m:
             return VOpt(False, None)
@@ -159,9 +165,17 @@ class Executor:
                 return v.items[p[1]]
             if isinstance(v, VOpt) and p[1] == 0:      # after downcast Some
                 return v.val
+            if isinstance(v, tuple) and v[0] == "res_ok":
+                return v[1].val
+            if isinstance(v, tuple) and v[0] == "res_err":
+                return v[1].err
             raise ExecError(f"field {p[1]} of {v!r}")
         if p[0] == "d":
             if isinstance(v, VOpt):
+                return v
+            if isinstance(v, VRes):
+                return ("res_ok" if p[1] in ("Ok", "Continue") else "res_err", v)
+            if isinstance(v, VStruct):
                 return v
             raise ExecError(f"downcast of {v!r}")
         raise ExecError(str(p))
@@ -230,8 +244,12 @@ class Executor:
             v = self.read_place(frame, rv[1])
             if isinstance(v, VOpt):
                 return VInt(smt.ite(v.some, smt.I1, smt.I0))
+            if isinstance(v, VRes):
+                return VInt(smt.ite(v.ok, smt.I0, smt.I1))
             raise ExecError(f"discriminant of {v!r}")
         if k == "tuple":
+            return VTuple([self.operand(frame, o) for o in rv[1]])
+        if k == "array":
             return VTuple([self.operand(frame, o) for o in rv[1]])
         if k == "closure":
             return VStruct(rv[1], [self.operand(frame, o) for _, o in rv[2]], [n for n, _ in rv[2]])
@@ -242,7 +260,11 @@ class Executor:
                 return VOpt(True, self.operand(frame, rv[3][0]))
             if rv[2] == "None":
                 return VOpt(False, None)
-            raise ExecError(f"variant {rv[1]}::{rv[2]}")
+            if rv[2] == "Ok" and "Result" in rv[1]:
+                return VRes(True, self.operand(frame, rv[3][0]), None)
+            if rv[2] == "Err" and "Result" in rv[1]:
+                return VRes(False, None, self.operand(frame, rv[3][0]))
+            return VStruct(rv[1] + "::" + rv[2], [self.operand(frame, o) for o in rv[3]])
         if k == "cast":
             a = self.operand(frame, rv[1])
             kind, ty = rv[3], rv[2]
@@ -297,7 +319,13 @@ class Executor:
             r = {"A": smt.add, "S": smt.sub, "M": smt.mul}[op[0]](x, y)
             # overflow flag relative to the operand type: usize/i32 ranges (type unknown here: the
             # kernels only use usize counters and i32 exponents; usize underflow is the realistic one)
-            ov = smt.or_(smt.lt(r, smt.I0), smt.gt(r, smt.const(2 ** 64 - 1)))
+            lo, hi = 0, 2 ** 64 - 1
+            ty = getattr(self, "cur_dest_ty", None)
+            if ty:
+                mt = re.match(r"\((\w+), bool\)", ty)
+                if mt:
+                    lo, hi = int_range(mt.group(1))
+            ov = smt.or_(smt.lt(r, smt.const(lo)), smt.gt(r, smt.const(hi)))
             return VTuple([VInt(r), VBool(ov)])
         if op == "Shr":
             return VInt(smt.idiv(x, smt.const(2 ** y.val))) if y.is_const else _raise("symbolic shift")
@@ -442,6 +470,9 @@ class Executor:
                 stack.extend(v.items)
             elif isinstance(v, VOpt):
                 stack.append(v.val)
+            elif isinstance(v, VRes):
+                stack.append(v.val)
+                stack.append(v.err)
             elif isinstance(v, (list, tuple)):
                 stack.extend(v)
             elif isinstance(v, VOpaque) and isinstance(v.data, (list, tuple)):
@@ -495,6 +526,7 @@ class Executor:
             if blk is None:
                 raise ExecError(f"missing block {p.block} in {fn.name}")
             for (_, place, rv) in blk.stmts:
+                self.cur_dest_ty = fn.locals.get(place[1]) if place[0] == "local" else None
                 val = self.rvalue(frame, rv)
                 cell, path = self.resolve(frame, place)
                 self.write_at(cell, path, val)
@@ -564,8 +596,14 @@ class Executor:
                 dest, callee, ops, tgt = t[1], t[2], t[3], t[4]
                 args = [self.operand(frame, o) for o in ops]
                 saved_pc = self.pc
+                self.assume_after_call = None
                 val = self.call(callee, args, frame, depth)
                 self.pc = saved_pc
+                if self.assume_after_call is not None:
+                    # a native that ends the failing side of a check (e.g. unwrap): continue under its condition
+                    p.cond = smt.and_(p.cond, self.assume_after_call)
+                    self.pc = smt.and_(self.pc, self.assume_after_call)
+                    self.assume_after_call = None
                 if val is _DIVERGE or "return" not in tgt:
                     return None
                 if dest is not None:
@@ -635,6 +673,8 @@ def merge_val(c, a, b):
         if a.cell is b.cell and a.path == b.path:
             return a
         raise ExecError("merge of different references")
+    if isinstance(a, VRes) and isinstance(b, VRes):
+        return VRes(smt.ite(c, a.ok, b.ok), merge_val(c, a.val, b.val), a.err if a.err is not None else b.err)
     if isinstance(a, VUnit) and isinstance(b, VUnit):
         return a
     if isinstance(a, VOpaque) and isinstance(b, VOpaque):
